@@ -276,8 +276,13 @@ func (p Sqlite) GetAlert(alert_id string) (*alertutils.AlertDetails, error) {
 		return nil, err
 	}
 	var alert alertutils.AlertDetails
-	if err := p.db.Preload("Labels").Where(&alertutils.AlertDetails{AlertId: alert_id}).Find(&alert).Error; err != nil {
-		return nil, err
+	result := p.db.Preload("Labels").Where(&alertutils.AlertDetails{AlertId: alert_id}).Find(&alert)
+	if result.Error != nil {
+		return nil, result.Error
+	}
+	if result.RowsAffected == 0 {
+		// Find reports no error when there is no such row
+		return nil, fmt.Errorf("GetAlert: alert does not exist, AlertId=%v", alert_id)
 	}
 	err := alert.DecodeQueryParamFromBase64()
 	if err != nil {
